@@ -114,15 +114,32 @@ class TNode:
         return self.kids
 
 
+class Leaf:
+    """content object: no tpValues attribute at all"""
+
+    def __init__(self, ident):
+        self.ident = ident
+        self.kids = []
+
+    def tpId(self):
+        return self.ident
+
+    def tpURL(self):
+        return 'u'
+
+
 def build_tree(shape, kind):
     """-> (root TNode, children map id -> [ids], parent map)"""
     counter = [0]
     children, parent = {}, {}
+    plain_leaves = kind == 'short-leafobj'
+    if plain_leaves:
+        kind = 'short'
 
     def mk(sh, par):
         i = counter[0]
         counter[0] += 1
-        node = TNode(make_id(kind, i))
+        node = (Leaf if plain_leaves and not sh else TNode)(make_id(kind, i))
         children[node.ident] = []
         parent[node.ident] = par
         for c in sh:
@@ -509,6 +526,11 @@ def cases(tier):
             else:
                 lit = 6 if nodes <= 5 else (5 if nodes <= 7 else 4)
             yield {'fam': 'click', 'shape': sh, 'ids': ids, 'literal': lit}
+        if nodes <= 6:
+            # heterogeneous trees: the leaves are content objects without
+            # a tpValues attribute
+            yield {'fam': 'click', 'shape': sh, 'ids': 'short-leafobj',
+                   'literal': 3}
         if nodes <= (5 if tier == 'quick' else 6):
             # option assume_children: every node carries a link; expanding
             # a childless node only records it in the state
